@@ -13,13 +13,13 @@ from vf import contracts, gen, harness, selections, synth
 ID = "C12"
 LEVEL = "exploration"
 RULE = ("seeded products with random content in every record, all levels (1.1 / 1.5 / 3.1), 1-8 images, on memory/local/vfs "
-        "filesystems; every node/variable/attribute of the returned tree is walked; per image 25 (quick) / 120 (thorough) "
+        "filesystems, every second tree obtained through index caches written by a previous open; every node/variable/attribute of the returned tree is walked; per image 25 (quick) / 120 (thorough) "
         "random selections are checked for declared-vs-loaded shape and dtype. evaluations = variables checked; non-trivial = "
         "product whose tree was walked completely; distinct = distinct (level, #images, map projection present, fs) signatures "
         "plus distinct (node depth, dtype kind) pairs seen")
 ASSUMPTIONS = ["allowed attribute leaves: Python int/float/bool/str/None and numpy scalars of kind b/i/u/f/c/U",
                "byte order is not part of dtype equality"]
-REQUIRED_OBS = ["variables_checked", "attrs_checked", "selections_checked", "repr_ok"]
+REQUIRED_OBS = ["variables_checked", "attrs_checked", "selections_checked", "repr_ok", "trees_via_cache"]
 
 N = {"quick": 200, "thorough": 5000}
 NSEL = {"quick": 25, "thorough": 120}
@@ -61,12 +61,24 @@ def run_case(i, tier, seed):
     sample = None
     try:
         rpc = rng.choice([1, 2, 3, 1024])
+        via_cache = i % 2 == 1
         try:
-            tree = harness.open_tree(url, use_cache=False, records_per_chunk=rpc)
+            if via_cache:
+                # the tree a user gets on every open after the first: image groups decoded from the index cache
+                import os
+
+                from vf import cachelib
+
+                harness.open_tree(url, use_cache=False, create_cache=True, records_per_chunk=rng.choice([1, 4, 1024]))
+                if all(os.path.isfile(cachelib.user_cache_file(url, n)) for n in info["names"]["imgs"]):
+                    obs["trees_via_cache"] = 1
+                tree = harness.open_tree(url, use_cache=True, records_per_chunk=rpc)
+            else:
+                tree = harness.open_tree(url, use_cache=False, records_per_chunk=rpc)
         except Exception as e:
             return {"sig": "open-failed", "evals": 0, "obs": obs, "nontrivial": False,
                     "violations": [{"what": f"open raised on a well-formed product: {harness.exc_sig(e)}", "detail": {"level": level}}]}
-        sigs.append(f"product|{level}|imgs:{len(info['images'])}|mp:{info['leader']['n_mp']}|{kind}")
+        sigs.append(f"product|{level}|imgs:{len(info['images'])}|mp:{info['leader']['n_mp']}|{kind}|cache:{int(via_cache)}")
         for node in tree.subtree:
             obs["nodes"] += 1
             ds = node.to_dataset(inherit=False)
@@ -125,12 +137,18 @@ def run_case(i, tier, seed):
                     continue  # whether it may raise is C02's business
                 obs["selections_checked"] += 1
                 if tuple(v.shape) != decl[0] or not isinstance(decl[1], np.dtype) or not same_dtype(v.dtype, decl[1]):
-                    violations.append({"what": f"selection {sel} of {n}: declared {decl[0]}/{decl[1]} but loaded {v.shape}/{v.dtype}",
+                    violations.append({"what": f"selection {sel} of {n}: declared {decl[0]}/{decl[1]!r} ({type(decl[1]).__name__}) but loaded {v.shape}/{v.dtype!r}",
                                        "detail": {"shape": [im["lines"], im["pixels"]], "rpc": rpc}})
         sample = {"level": level, "fs": kind, "nodes": obs["nodes"], "variables": obs["variables_checked"],
                   "images": list(info["images"].values())}
     finally:
         synth.uninstall(files, root, kind)
+        if i % 2 == 1:
+            import shutil
+
+            from vf import cachelib
+
+            shutil.rmtree(cachelib.user_cache_root(), ignore_errors=True)
     for f in contracts.drain():
         violations.append({"what": f"contract {f['contract']} failed", "detail": f["detail"]})
     # one witness per mechanism is enough in the report
